@@ -4,14 +4,22 @@ mod file_number;
 pub use self::directory::{Directory, RollingReader, RollingWriter};
 pub use self::file_number::{FileNumber, FileTracker};
 
+#[cfg(not(mrecordlog_verif_tiny))]
 const FRAME_NUM_BYTES: usize = 1 << 15;
+#[cfg(mrecordlog_verif_tiny)]
+const FRAME_NUM_BYTES: usize = 64;
 
+#[cfg(not(mrecordlog_verif))]
 #[cfg(not(test))]
 const NUM_BLOCKS_PER_FILE: usize = 1 << 12;
+#[cfg(all(mrecordlog_verif, not(test)))]
+const NUM_BLOCKS_PER_FILE: usize = 4;
 
 #[cfg(test)]
 const NUM_BLOCKS_PER_FILE: usize = 4;
 
 const FILE_NUM_BYTES: usize = FRAME_NUM_BYTES * NUM_BLOCKS_PER_FILE;
+#[cfg(mrecordlog_verif)]
+pub(crate) const VERIF_FILE_NUM_BYTES: usize = FILE_NUM_BYTES;
 #[cfg(test)]
 mod tests;
